@@ -1,4 +1,5 @@
 import Hive.Proofs.KVRefine
+import Hive.Proofs.KVCopy
 /-!
 # C04 — KVStore views and wrappers obey one ordered-map contract
 
@@ -200,6 +201,100 @@ theorem C04_close_is_final (s : St) (v : Nat) (vw : View) (hv : s.views.lookup v
     (step s (.close v)).2 = .ok ∧ (run (step s (.close v)).1 ops).1.db.closed = true := by
   refine ⟨by simp [step, onView, hv], run_closed _ (by simp [step, onView, hv]) ops⟩
 
+/-! ## two store trees, Copy / CopyBatched, the prefix arithmetic -/
+
+/-- **Refinement with two store trees and Copy.**  A pair of independent store trees, with
+`kvstore.Copy` / `kvstore.CopyBatched` (any batch size) from a view of one tree into a view of the other
+(or of the same tree), refines the pair of ordered maps in which a copy inserts every entry of the
+source view, realm stripped, under the target view's realm — per request and for all histories from
+two fresh stores; a closed source or target makes the copy answer ErrStoreClosed and change nothing
+(`Spec.copyStep`). -/
+theorem C04_copy_refines (ops : List POp) :
+    (∀ p, PInv p → ∀ op, (pstep p op).2 = (Spec.pstep (pabs p) op).2 ∧
+      pabs (pstep p op).1 = (Spec.pstep (pabs p) op).1 ∧ PInv (pstep p op).1) ∧
+    (prunOps pinit ops).2 = (Spec.prunOps (Spec.init, Spec.init) ops).2 := by
+  refine ⟨pstep_refines, ?_⟩
+  have := prun_refines pinit ⟨inv_init, inv_init⟩ ops
+  have hp : pabs pinit = (Spec.init, Spec.init) := by simp [pabs, pinit, abs_init]
+  rw [hp] at this
+  exact this.1
+
+/-- **What Copy / CopyBatched leave behind** (open stores, any batch size `n`, source and target views
+of different trees or of the same one): the call answers ok; every key `k` of the source view reads
+in the target view with the source's value; every other full key of the target store — in the target
+realm or not — is unchanged; the target's handles are untouched. -/
+theorem C04_copy_spec (src dst : St) (hs : Inv src) (v w : Nat) (vs vd : View)
+    (hv : src.views.lookup v = some vs) (hw : dst.views.lookup w = some vd)
+    (hso : src.db.closed = false) (hdo : dst.db.closed = false) (n : Nat)
+    (r : St × Out) (hr : r = copyStep src dst v w ∨ r = copybStep src dst v w n) :
+    r.2 = .ok ∧ r.1.views = dst.views ∧ r.1.batches = dst.batches ∧
+    (∀ k x, aget (vs.realm ++ k) src.db.m = some x → aget (vd.realm ++ k) r.1.db.m = some x) ∧
+    (∀ fk, (∀ k x, aget (vs.realm ++ k) src.db.m = some x → fk ≠ vd.realm ++ k) →
+      aget fk r.1.db.m = aget fk dst.db.m) := by
+  obtain ⟨h1, h2⟩ := copy_result src dst hs v w vs vd hv hw hso hdo n
+  have hes := noDup_iterAll vs.realm hs.nodup
+  have key : ∀ (r : St × Out), r.2 = .ok ∧ r.1.views = dst.views ∧ r.1.batches = dst.batches ∧
+      (∀ fk, aget fk r.1.db.m = copyLookup vd.realm (iterAll vs.realm [] .fwd src.db.m) fk (aget fk dst.db.m)) →
+      r.2 = .ok ∧ r.1.views = dst.views ∧ r.1.batches = dst.batches ∧
+      (∀ k x, aget (vs.realm ++ k) src.db.m = some x → aget (vd.realm ++ k) r.1.db.m = some x) ∧
+      (∀ fk, (∀ k x, aget (vs.realm ++ k) src.db.m = some x → fk ≠ vd.realm ++ k) →
+        aget fk r.1.db.m = aget fk dst.db.m) := by
+    rintro r ⟨a, b, c, d⟩
+    refine ⟨a, b, c, fun k x hk => ?_, fun fk hfk => ?_⟩
+    · rw [d]
+      exact copyLookup_mem hes ((mem_iterAll vs.realm [] .fwd hs.nodup k x).mpr ⟨hk, by simp [hasPfx]⟩) _
+    · rw [d]
+      apply copyLookup_other
+      intro e he
+      obtain ⟨ek, ex⟩ := e
+      exact hfk ek ex ((mem_iterAll vs.realm [] .fwd hs.nodup ek ex).mp he).1
+  rcases hr with rfl | rfl
+  · exact key _ h1
+  · exact key _ h2
+
+/-- **The prefix arithmetic** (`utils.KeyPrefixUpperBound`, on which range scans of persistent stores
+rest): a key carries prefix `p` iff `p ≤ k < upperBound p` in Go's byte order, where the empty and the
+all-0xff prefix have no upper bound (`upperBound p = none`: every `k ≥ p` carries the prefix). -/
+theorem C04_prefix_range (p k : Bytes) :
+    hasPfx p k = (!blt k p && match upperBound p with | none => true | some u => blt k u) := by
+  have := prefix_range p k
+  unfold belowBound at this
+  exact this
+
+/-- The empty and the all-0xff prefixes are exactly those without an upper bound. -/
+theorem C04_upperBound_none (p : Bytes) : upperBound p = none ↔ ∀ b ∈ p, b.toNat = 255 := by
+  induction p with
+  | nil => simp [upperBound]
+  | cons b rest ih =>
+    simp only [upperBound, List.mem_cons, forall_eq_or_imp]
+    cases hu : upperBound rest with
+    | some u =>
+      have : ¬ ∀ b ∈ rest, b.toNat = 255 := fun h => by rw [ih.mpr h] at hu; cases hu
+      simp [this]
+    | none =>
+      have := ih.mp hu
+      by_cases hb : b.toNat = 255
+      · simp only [hb, if_true, true_and]
+        exact ⟨fun _ => this, fun _ => trivial⟩
+      · simp [hb]
+
+/-- `byteutils.ConcatBytes` is the concatenation of its parts; `realm ‖ key` construction is
+`ConcatBytes(realm, key)` (that the result shares no memory with the parts is checked on the real
+code by the tie). -/
+theorem C04_concatBytes (a b : Bytes) (parts : List Bytes) :
+    concatBytes [a, b] = a ++ b ∧ concatBytes (a :: parts) = a ++ concatBytes parts ∧ concatBytes [] = [] := by
+  simp [concatBytes]
+
+/-- `utils.CopyBytes`: a copy of the source, or — with a size — the source cut to that size and
+zero-padded up to it; the result has exactly the requested length. -/
+theorem C04_copyBytes (src : Bytes) (n : Nat) :
+    copyBytes src none = src ∧
+    copyBytes src (some n) = src.take n ++ List.replicate (n - src.length) 0 ∧
+    (copyBytes src (some n)).length = n := by
+  refine ⟨rfl, rfl, ?_⟩
+  simp only [copyBytes, List.length_append, List.length_take, List.length_replicate]
+  omega
+
 /-! ## the hypotheses are satisfiable: concrete histories -/
 
 /-- The invariant holds initially (and, by `C04_inv_reachable`, after every history). -/
@@ -216,6 +311,14 @@ def sampleHistory : List Op :=
 example : (run init sampleHistory).2 =
     [.ok, .ok, .ok, .ok, .ok, .val [10], .ok, .kvs [([1, 255, 0], [10]), ([1, 255], [11])], .ok, .ok, .ok, .ok, .ok,
      .kvs [([127], [2]), ([255], [11])], .ok, .keys [[1, 127]], .ok, .closed] := by
+  decide
+
+/-- Two trees, a copy across them with realm translation, a batched copy with a batch boundary. -/
+example : (prunOps pinit [.on false (.view 1 0 [1] .abs), .on false (.set 1 [170] [1]), .on false (.set 1 [187] [2]),
+      .on true (.view 1 0 [7] .abs), .on true (.set 1 [170] [255]), .copy false 1 true 1, .on true (.iter 0 [] .fwd 0),
+      .copyb false 0 true 0 1, .on true (.iterk 0 [] .fwd 0), .on true (.close 0), .copy false 0 true 1]).2 =
+    [.ok, .ok, .ok, .ok, .ok, .ok, .kvs [([7, 170], [1]), ([7, 187], [2])], .ok,
+     .keys [[1, 170], [1, 187], [7, 170], [7, 187]], .ok, .closed] := by
   decide
 
 end Hive.KV
